@@ -120,6 +120,14 @@ func (Transport) WrapConnection(data *bytes.Buffer, c net.Conn, phantom net.IP, 
 		if pos == -1 {
 			continue
 		}
+		if !validHandshakeMAC(obfs4Keys.NodeID, obfs4Keys.PublicKey, data.Bytes(), pos) {
+			// The mark matches this registration but the MAC does not authenticate the handshake
+			// (damaged, or recorded and replayed in another hour). The obfs4 server handshake
+			// would refuse it and then dispose of the connection on a schedule of its own
+			// (discard a random number of bytes, then close), which a prober can tell apart from
+			// the station's silence. Treat it like any other flight that is not recognised.
+			continue
+		}
 
 		// We found the mark in the client handshake! We found our registration!
 		args := pt.Args{}
